@@ -407,13 +407,14 @@ Definition C09_contract_session : Prop :=
     evs u (log (run F s1 (AStop :: h'))) <= evs u (log s1) + 1.
 
 (** ---------------------------------------------------------------- the frame slot of a function literal
-    (interp/run.go getFunc). A function literal has one frame slot. Executing the literal saves
-    the slot's content [o] and stores the new function value; whenever a call of that value
-    returns, the slot is set back to [o] ([getFrame(f, l).data[i] = o] after [runCfg]). A statement
+    (interp/run.go getFunc, as repaired by abe7a69). A function literal has one frame slot.
+    Executing the literal stores the new function value there (the clone kept by the value has that
+    slot cleared); nothing is written back when a call of the value returns. A statement
     [go func(...) {...}(...)] in a loop executes the literal and then calls what the slot holds.
-    After a cancellation every running call of an earlier value returns at once, so the slot can go
-    back to its very first content — the nil function — between the literal and the [go] statement
-    that is in flight: the new goroutine calls a nil function and the host process dies. *)
+    Before the repair a returning call set the slot back to what it held when the literal was
+    executed — in the end the nil function — and after a cancellation, when every running call
+    returns at once, the [go] statement in flight could find the nil function there: the new
+    goroutine panicked (reflect.Value.Call: call of nil function) and the host process died. *)
 Inductive sev :=
 | SLit (g : nat)    (* the loop executes the literal: value number g *)
 | SGo               (* the loop executes the go statement *)
@@ -421,25 +422,23 @@ Inductive sev :=
 
 Record slot_state := mkSlot {
   slot : option nat;                    (* None = nil function *)
-  saved : list (nat * option nat);      (* value g -> content of the slot when g was created *)
   started : list nat;                   (* values called by go statements, latest first *)
-  crashed : bool }.                     (* reflect.Value.Call: call of nil function, in a new goroutine *)
+  crashed : bool }.                     (* a go statement called the nil function *)
 
 Definition slot_step (s : slot_state) (e : sev) : slot_state :=
   match e with
-  | SLit g => mkSlot (Some g) ((g, slot s) :: saved s) (started s) (crashed s)
+  | SLit g => mkSlot (Some g) (started s) (crashed s)
   | SGo => match slot s with
-           | Some g => mkSlot (slot s) (saved s) (g :: started s) (crashed s)
-           | None => mkSlot (slot s) (saved s) (started s) true
+           | Some g => mkSlot (slot s) (g :: started s) (crashed s)
+           | None => mkSlot (slot s) (started s) true
            end
-  | SRet g => match lookup g (saved s) with
-              | Some o => mkSlot o (saved s) (started s) (crashed s)
-              | None => s
-              end
+  | SRet _ => s                         (* no write-back *)
   end.
 
-Definition slot_run (l : list sev) : slot_state := fold_left slot_step l (mkSlot None [] [] false).
+Definition slot_run (l : list sev) : slot_state := fold_left slot_step l (mkSlot None [] false).
+
+Definition is_ret (e : sev) : bool := match e with SRet _ => true | _ => false end.
 
 (** for i := 1..3 { go func(id int) { for { tick(id) } }(i) }, cancelled between the third literal
-    and its go statement; the first goroutine is the first to notice *)
+    and its go statement; the first goroutine is the first to notice (the former crash witness) *)
 Definition slot_witness : list sev := [SLit 1; SGo; SLit 2; SGo; SLit 3; SRet 1; SGo].
